@@ -194,6 +194,23 @@ def run(ck, m):
                   'the session end calls Client::left on every path' if okl else
                   'this transport ends a session (unwatch-all) without Client::left: its connection stays counted for ever', b.loc(bi))
         ck.floor('C17.a', len(ends), 3, 'transport session-end sites')
+        # where one function both executes a session's commands and ends the session, no path from an executed command leaves
+        # the function around Client::left (an early return out of the command loop drops the Client with its connection counted)
+        nd = 0
+        for b in {b_.id: b_ for b_, _ in ends}.values():
+            lefts = {x for x, t in b.calls() if callee(t) == lb.id}
+            disp = [x for x, t in b.calls() if callee(t) in pr and t['args'] and not any(const_str(r) is not None for r in origins(b, t['args'][0]))]
+            if not lefts or not disp:
+                continue
+            rets = set(b.return_blocks())
+            for x in disp:
+                nd += 1
+                esc = rets & set(b.reach_from([x], stop=lambda y: y in lefts))
+                ck.ob('C17.a', short(b.id), 'no-exit-around-session-end', not esc,
+                      'every path from an executed command to the return passes Client::left' if not esc else
+                      'after executing a command the function can return (%s) without Client::left: the session that selected a database is '
+                      'dropped with its connection still counted — $connections never falls back' % [b.loc(y) for y in sorted(esc)], b.loc(x))
+        ck.floor('C17.a', nd, 1, 'command dispatches in functions that also end the session')
     # ---- (b) ---------------------------------------------------------------------------
     # mirror(): reads the counter in its own critical section and writes the key in another one; the
     # update happened in a third.  Atomic only if one lock spans update, read and write.
